@@ -222,6 +222,20 @@ def value_oracle(meta, impl):
     lines = conf.split(b"\n")
     for (kind, key), v in zip(sch, vals):
         kind = kind.rstrip("!")
+        if kind in ("U", "L"):
+            if v == "-":
+                continue
+            cand = [l for l in lines if l.strip(b" \t").lower().split()[:1] == [key.lower()]]
+            if len(cand) != 1 or b"{" in conf or b"}" in conf or b"#" in conf or b"\r" in conf:
+                continue
+            t = cand[0].strip(b" \t")[len(key):].strip(ISSPACE)
+            lo, hi = (0, 2 ** 64 - 1) if kind == "U" else (-2 ** 63, 2 ** 63 - 1)
+            if not INT_RE.match(t) or (kind == "U" and b"-" in t) or not (lo <= int(t) <= hi):
+                return ("strict:integer:%s" % ("negative-unsigned-accepted" if kind == "U" and t.startswith(b"-") else "malformed-accepted"),
+                        "keyword %r (%s): value text %r accepted as %s" % (key, "size_t" if kind == "U" else "long", t, v))
+            if int(t) != int(v):
+                return ("value:integer", "keyword %r: value text %r read as %s" % (key, t, v))
+            continue
         if kind not in ("R", "I", "V") and kind[0] not in "NT":
             continue
         if v == "-":
